@@ -347,6 +347,13 @@ def execute_level1(scen):
             chk.model.register_device(did, (lambda n: True) if catch else (lambda n, dn=dn: n is None or n == dn))
             devices.append(d)
 
+    # a second, independent router in the same process (a TCP server next to a TTY server, an embedded simulator ...):
+    # nothing routed through `router` may ever reach its endpoints
+    other = Router()
+    other_seen = []
+    other.register_device(RecDevice("other_dev", "A", lambda rec: other_seen.append(rec), catch_all=True))
+    other.register_client(RecClient("other_cli", lambda rec: other_seen.append(rec)))
+
     with Sim(0) as sim:
         def run():
             for st in scen["steps"]:
@@ -397,6 +404,12 @@ def execute_level1(scen):
                     router.process_message(msg, sender=sender)
         sim.do(run)
         sim.settle()
+    if other_seen:
+        what, eid, msg = other_seen[0]
+        chk.violate("C04.devices" if what == "dev" else "C05.matrix",
+                    f"an endpoint registered with ANOTHER Router instance ({eid}) received {msg.tag_name()} ({len(other_seen)} hand-overs): routers share state")
+    if len(other.devices) != 1 or len(other.clients) != 1:
+        chk.violate("C04.devices", f"another Router instance now lists {len(other.devices)} devices / {len(other.clients)} clients it never registered: routers share state")
     digest = hashlib.sha256(repr(chk.log_lines).encode()).hexdigest()
     return chk, digest, 0.0, 0
 
